@@ -123,8 +123,9 @@ def retainStep (b : B) (m : Msg) : B × Msg :=
   if !m.p.retain then (b, m)
   else if m.p.payload.isEmpty then
     ({ b with topics := (b.topics.retain (toRMsg m.p)).1 }, m)
-  else if !(Mqtt.Model.Topics.levels m.p.topic).2 then
-    -- rinsert fails while walking the levels, before the message is encoded at the leaf
+  else if Mqtt.Model.Topics.checkSys m.p.topic || !(Mqtt.Model.Topics.levels m.p.topic).2 then
+    -- Retain turns a topic beginning with '$' away, or rinsert fails while walking
+    -- the levels: either way before the message is encoded at the leaf
     ({ b with topics := (b.topics.retain (toRMsg m.p)).1 }, m)
   else
     -- rinsert encodes the message into the node's buffer (may assign an identifier)
